@@ -106,14 +106,23 @@ RUN(r_mzp, mzp_t *P = mzp_init(s.n); mzp_free(P))
 // more than 64 (and more than 128) simultaneously live headers: the header cache allocates further blocks
 static void r_many_headers(Scn &s) {
   std::vector<mzd_t *> w;
-  int cnt = 70 + (s.k % 3) * 64;
+  // k >= 100 is the number of live headers itself: beyond 16 full header blocks (1024) every further header is a
+  // separate heap allocation
+  int cnt = s.k >= 100 ? s.k : 70 + (s.k % 3) * 64;
   for (int i = 0; i < cnt; i++) w.push_back(mzd_init_window(s.M[0], 0, 0, 1 + i % s.m, 1 + i % s.n));
   for (int i = 0; i < cnt; i += 2) vf_free_window(w[i]);
   for (int i = 1; i < cnt; i += 2) vf_free_window(w[i]);
 }
 static void r_many_matrices(Scn &s) {
   std::vector<mzd_t *> w;
-  for (int i = 0; i < 70; i++) w.push_back(mzd_init(1 + i % 5, 1 + i % 130));
+  int cnt = s.k >= 100 ? s.k : 70;
+  for (int i = 0; i < cnt; i++) w.push_back(mzd_init(1 + i % 5, 1 + i % 130));
+  if (cnt > 1024) {  // operations (with temporaries) while the header cache is exhausted
+    mzd_t *T = mzd_transpose(nullptr, w[7]);
+    mzd_free(T);
+    mzd_t *W = mzd_init_window(w[9], 0, 0, 1, 1);
+    vf_free_window(W);
+  }
   for (auto m : w) mzd_free(m);
 }
 RUN(r_mul_naive, mzd_free(mzd_mul_naive(nullptr, s.M[0], s.M[1])))
@@ -383,6 +392,12 @@ static std::vector<Case> enum_C20(const GenCtx &ctx) {
     c.sets("prop", "C20").sets("op", name).set("m", 520).set("l", 520).set("n", 520).set("k", 0).setu("seed", 99);
     v.push_back(c);
   }
+  // more than 1024 live headers: the header cache (16 blocks of 64) is exhausted and each further header is its own allocation
+  for (const char *name : {"many_live_windows", "many_live_matrices"}) {
+    Case c;
+    c.sets("prop", "C20").sets("op", name).set("m", 20).set("l", 20).set("n", 70).set("k", 1031).setu("seed", 5);
+    v.push_back(c);
+  }
   for (const char *name : {"create", "copy", "add", "transpose", "submatrix", "concat", "stack", "transpose_into_window", "mzp_init"}) {
     for (int big : {2944, 4160}) {
       Case c;
@@ -413,7 +428,8 @@ RegisterProp p_C20({"C20",
                     "fault enumeration: scenario (create, window, permutation object, every multiplication route incl. squaring and the "
                     "multi-core front end where built, every elimination route, PLE/PLUQ, three inversions, solve, kernel, four TRSMs, "
                     "transposition incl. into / from a window with excess bits, copy/submatrix/concat/stack/add/extract, permutation "
-                    "applications, PNG write/read, JCF read, string constructor, DJB compile with > 64 operations) x operand sizes "
+                    "applications, PNG write/read, JCF read, string constructor, DJB compile with > 64 operations, 70-198 and 1031 "
+                    "simultaneously live headers) x operand sizes "
                     "(3 fixed variants quick / 4 thorough + generated sizes); for each instance the allocation requests are counted in "
                     "a forked child started from an empty block cache and then EVERY request index i is failed in a fresh child; "
                     "required fate: SIGABRT with a diagnostic on stderr and no sanitizer report. evaluations = injected faults; "
